@@ -9,6 +9,7 @@ mod point;
 mod subs;
 mod walk;
 mod widec;
+mod colfmt;
 
 use ops::HueOps;
 use oracle::*;
@@ -126,6 +127,15 @@ fn replay(c: &mut Collector, rep: &Value) {
         c.merge(all);
         return;
     }
+    if case["sub"] == "colour-format" {
+        let ctx = Ctx { only: Some(format!("colour-format/{ty}")), ..Ctx::from_args("C11").0 };
+        let mut all = Collector::new();
+        colfmt::run(&ctx, &mut all);
+        let want = rep["signature"].as_str().unwrap_or("").to_string();
+        all.viol.retain(|k, _| *k == want);
+        c.merge(all);
+        return;
+    }
     if case["sub"] == "wide" {
         let bits: Vec<u64> = case["input"].as_array().map(|a| a.iter().map(parse_hex).collect()).unwrap_or_default();
         widec::replay_wide(c, hue, ty, &bits);
@@ -172,6 +182,7 @@ fn real_main() -> i32 {
     for_all!(subs::arith, &ctx, &mut total);
     widec::wide_lanes(&ctx, &mut total);
     widec::wide_equality(&ctx, &mut total);
+    colfmt::run(&ctx, &mut total);
     ctx.finish(
         total,
         "model_checking",
